@@ -20,22 +20,22 @@ pub fn plan(prop: &str) -> Vec<PlanEntry> {
     let p = |family, weight| PlanEntry { family, weight };
     match prop {
         "C01" => vec![p("rc-mixed", 5), p("rc-weak", 2), p("rc-bulk", 1), p("dir-t4", 1), p("dir-t3", 1), p("dir-t1", 1)],
-        "C02" => vec![p("rc-mixed", 3), p("rc-weak", 1), p("dir-t1", 3), p("dir-t2", 3), p("dir-t3", 1), p("dir-t5", 1)],
-        "C03" => vec![p("rc-weak", 5), p("rc-mixed", 2), p("dir-t4", 2)],
-        "C04" => vec![p("rc-mixed", 3), p("rc-bulk", 2), p("rc-weak", 2), p("tls", 1), p("dir-t6", 1)],
-        "C05" => vec![p("rc-weak", 4), p("dir-t3", 4), p("rc-mixed", 1)],
+        "C02" => vec![p("rc-mixed", 3), p("rc-weak", 1), p("dir-t1", 3), p("dir-t2", 3), p("dir-t3", 1), p("dir-t5", 1), p("dir-t8", 2)],
+        "C03" => vec![p("rc-weak", 4), p("rc-mixed", 1), p("dir-t4", 2), p("dir-t7", 3)],
+        "C04" => vec![p("rc-mixed", 3), p("rc-bulk", 2), p("rc-weak", 2), p("tls", 1), p("dir-t6", 1), p("dir-t7", 1), p("dir-t4", 1)],
+        "C05" => vec![p("rc-weak", 4), p("dir-t3", 4), p("rc-mixed", 1), p("dir-t7", 1)],
         "C06" => vec![p("chain", 1)],
         "C07" => vec![p("chain-stack", 1)],
         "C08" => vec![p("rc-cells", 1)],
         "C09" => vec![p("rc-wcells", 3), p("dir-w", 1)],
         "C10" => vec![p("rc-bulk", 1)],
         "C12" => vec![p("agesweep", 2), p("rc-mixed", 1), p("dir-t6", 1)],
-        "C13" => vec![p("ebr", 3), p("ebr-churn", 2), p("rc-mixed", 1)],
-        "C14" => vec![p("ebr", 2), p("ebr-churn", 3), p("rc-mixed", 1), p("rc-bulk", 1), p("dir-t6", 1)],
+        "C13" => vec![p("ebr", 3), p("ebr-churn", 2), p("ebr-longcs", 3), p("rc-mixed", 1)],
+        "C14" => vec![p("ebr", 2), p("ebr-churn", 3), p("ebr-longcs", 2), p("rc-mixed", 1), p("rc-bulk", 1), p("dir-t6", 1)],
         "C15" => vec![p("ebr", 3), p("ebr-churn", 2), p("tls", 1)],
-        "C16" => vec![p("guards", 4), p("ebr", 1)],
+        "C16" => vec![p("guards", 4), p("ebr", 1), p("ebr-longcs", 2)],
         "C17" => vec![p("queue", 1)],
-        "C18" => vec![p("list", 3), p("ebr-churn", 1)],
+        "C18" => vec![p("list", 3), p("ebr-churn", 2)],
         "C20" => vec![p("tls", 3), p("ebr-churn", 1)],
         _ => vec![],
     }
@@ -73,6 +73,8 @@ pub fn nontrivial(prop: &str, r: &J) -> bool {
         "C15" => c.getu("closures_run") > 0 && (faults.getu("exit_pending") > 0 || probes.getu("defer_boxed_shape") > 0),
         "C16" => probes.getu("reactivate_sole") + probes.getu("reactivate_nonsole") > 0,
         "C20" => faults.getu("tls_api") > 0,
+        "C17" => e.get("fam").map(|f| f.getu("concurrent_pairs") > 0 || f.getu("queue_ops") > 26).unwrap_or(false),
+        "C18" => e.get("fam").map(|f| f.getu("traversals_overlapping_updates") > 0).unwrap_or(false) || ebr.getu("registered") > 2,
         _ => r.getu("switches") > 0,
     }
 }
